@@ -924,11 +924,14 @@ fn main() {
                 ("split-by-scalar-lit", "⊜□≠@ . \" \"", false),
                 ("split-by-mask-lit", "⊜□¬⦷\"ab\". \"ab\"", false),
                 ("square-abs", "×.⌵ [ℂ3 2 ℂ1 2]", false),
+                // repaired in round 9: 333e012 (fused square-abs leaves the map keys off)
+                ("square-abs", "×.⌵ map [1 2] [3 4]", false),
+                ("square-abs", "×.⌵⊟. map [1 2] [3 4]", false),
+                ("square-abs", "×.⌵ ¤ map [1 2] [3 4]", false),
                 // still open
                 ("conjoin-inventory", "/◇⊂⍚(⊂0) []", true),
                 ("reduce-content", "≡(¤/◇⊂) []", true),
                 ("reduce-content", "/◇⊂ ↯0 □0", true),
-                ("square-abs", "×.⌵ map [1 2] [3 4]", false),
             ] {
                 progs.push((rule.to_string(), format!("# Experimental!\n{src}\n"), vec![], if empty { vec!["[]".into()] } else { vec![] }));
             }
